@@ -119,6 +119,11 @@ int main(int argc, char *argv[]) {
             parmcb::set_global_tbb_concurrency(cores);
         }
     }
+#ifdef PARMCB_VERIF
+    // verification hook: report the parallelism limit in force right before the algorithm runs
+    std::cout << "VERIF active parallelism: "
+            << tbb::global_control::active_value(tbb::global_control::max_allowed_parallelism) << std::endl;
+#endif
 #endif
 
     boost::timer::cpu_timer timer;
